@@ -68,6 +68,15 @@ PROFILES = {
                 n_inst=[2, 3, 3, 4], n_groups=[1, 2, 3], n_programs=[1, 2, 3], p_autostart=0.15,
                 supvisors_failure_strategies=['CONTINUE'], p_absent=0.05, p_disabled=0.0, p_trigger_op=0.3,
                 p_heal=0.9, p_final_heal=1.0),
+    'C06': dict(BASE, max_faults=1, min_faults=1, ops='none', fault_weights={'crash': 1}, fault_window=(25.0, 120.0),
+                child_kinds={'ok': 0.97, 'exec_fail': 0.03}, autorestart=['false'], p_autostart=0.0, p_sequenced=0.9,
+                p_app_sequenced=1.0,
+                running_failure=['CONTINUE', 'RESTART_PROCESS', 'STOP_APPLICATION', 'RESTART_APPLICATION'],
+                n_inst=[3, 3, 4, 5], n_groups=[1, 2, 3], n_programs=[2, 3, 4], p_absent=0.05, p_disabled=0.0,
+                supvisors_failure_strategies=['CONTINUE'], need_timeout=True, p_late_boot=0.1, late_boot_max=15.0,
+                p_trigger=0.4, trigger_states=['DISTRIBUTION', 'OPERATION'], p_wait_exit=0.0, quiesce=240.0,
+                conciliation_strategies=['USER'], loads=[0, 5, 10, 20], p_numprocs=0.1,
+                victim_pool=['$nonmaster', '$nonmaster', '$nonmaster', '$nonmaster', '$master']),
     'C02': dict(BASE, max_faults=5, ops='fsm'),
     'C16': dict(BASE, max_faults=5, ops='all', p_absent=0.3, p_shared_node=0.5),
 }
@@ -99,6 +108,9 @@ def observers_for(prop, scen):
     elif prop in ('C03', 'C04', 'C14'):
         from oracles import starts
         obs.append(starts.StartRequests(app_plans_only=(prop == 'C03')))
+    elif prop == 'C06':
+        from oracles import failure
+        obs.append(failure.RunningFailure())
     elif prop == 'C05':
         from oracles import conciliation
         obs.append(conciliation.Conciliation())
